@@ -53,7 +53,7 @@ def main():
     # ---- Level A: building blocks, function by function
     levela = {}
     if not only:
-        exa = refbuild.ref_harness("plain", "c01_levela", ["c01_levela.cc"])
+        exa = refbuild.ref_harness("plain", "c01_levela", ["c01_levela.cc"], extra_flags="-rdynamic")
         rc, out, err = run([exa, str(chk.seed), str(3000 if quick else 60000), "1" if port_fermi else "0"],
                            timeout=3600, env=build.lib_env("plain"))
         if rc != 0:
